@@ -150,10 +150,16 @@ impl Default for U32 { fn default() -> (r: Self) ensures r.v == 0 { U32 { v: 0 }
 impl Default for U64 { fn default() -> (r: Self) ensures r.v == 0 { U64 { v: 0 } } }
 
 /// Stand-in for zerocopy::IntoBytes: `raw()` is the specified in-memory image.
-pub trait IntoBytes {
+pub trait IntoBytes: Sized {
     spec fn raw(&self) -> Seq<u8>;
+    /// zerocopy: `as_bytes()` is the object's memory, so its length is size_of::<Self>()
     fn as_bytes(&self) -> (r: &[u8])
-        ensures r@ == self.raw();
+        ensures r@ == self.raw(), r@.len() == vstd::layout::size_of::<Self>();
+    /// same fact, available without calling as_bytes()
+    #[verifier::external_body]
+    proof fn lemma_raw_len(&self)
+        ensures self.raw().len() == vstd::layout::size_of::<Self>(), self.raw().len() <= 0x7fff_ffff_ffff_ffff
+    { }
 }
 pub trait Immutable {}
 pub trait FromBytes {}
@@ -432,3 +438,67 @@ pub proof fn lemma_sum_le64(x: u64)
     ensures sum(le64(x)) == (x % 256) + ((x / 0x100) % 256) + ((x / 0x1_0000) % 256) + ((x / 0x100_0000) % 256)
         + ((x / 0x1_0000_0000) % 256) + ((x / 0x100_0000_0000) % 256) + ((x / 0x1_0000_0000_0000) % 256) + (x / 0x100_0000_0000_0000)
 { reveal_with_fuel(sum, 9); }
+
+// ---------------------------------------------------------------------------------------
+// generic-table vocabulary (C13): a byte vector with a self-maintaining header
+
+pub open spec fn neg8(x: int) -> u8 { ((256 - x % 256) % 256) as u8 }
+/// recompute the checksum byte (offset 9) so that the whole image sums to 0
+pub open spec fn sdt_fix(s: Seq<u8>) -> Seq<u8> { s.update(9, neg8(sum(s.update(9, 0u8)))) }
+/// overwrite `d.len()` bytes at `off`
+pub open spec fn splice(s: Seq<u8>, off: int, d: Seq<u8>) -> Seq<u8> {
+    Seq::new(s.len(), |i: int| if off <= i < off + d.len() { d[i - off] } else { s[i] })
+}
+/// append `d`, rewrite the Length field (offset 4) with the new total, recompute the checksum
+pub open spec fn sdt_append(s: Seq<u8>, d: Seq<u8>) -> Seq<u8> {
+    sdt_fix(splice(s + d, 4, le32((s.len() + d.len()) as u32)))
+}
+pub open spec fn sdt_write(s: Seq<u8>, off: int, d: Seq<u8>) -> Seq<u8> { sdt_fix(splice(s, off, d)) }
+
+pub proof fn lemma_sum_update(s: Seq<u8>, i: int, v: u8)
+    requires 0 <= i < s.len()
+    ensures sum(s.update(i, v)) == sum(s) - s[i] as int + v as int
+    decreases s.len()
+{
+    if i == s.len() - 1 {
+        assert(s.update(i, v).drop_last() =~= s.drop_last());
+    } else {
+        assert(s.update(i, v).drop_last() =~= s.drop_last().update(i, v));
+        lemma_sum_update(s.drop_last(), i, v);
+    }
+}
+pub proof fn lemma_sdt_fix_sums_to_zero(s: Seq<u8>)
+    requires s.len() >= 10
+    ensures cksum_ok(sdt_fix(s)), sdt_fix(s).len() == s.len(),
+        forall|i: int| 0 <= i < s.len() && i != 9 ==> sdt_fix(s)[i] == s[i]
+{
+    let t = s.update(9, 0u8);
+    lemma_sum_update(s, 9, 0u8);
+    lemma_sum_update(s, 9, neg8(sum(t)));
+    lemma_sum_nonneg(t);
+}
+/// sink view of the generic table: absorb the bytes of `k` one at a time
+pub open spec fn sdt_absorb(s: Seq<u8>, k: Seq<u8>) -> Seq<u8>
+    decreases k.len()
+{
+    if k.len() == 0 { s } else { sdt_absorb(sdt_append(s, seq![k[0]]), k.skip(1)) }
+}
+pub proof fn lemma_sdt_absorb_cons(s: Seq<u8>, b: u8, k: Seq<u8>)
+    ensures sdt_absorb(s, seq![b] + k) == sdt_absorb(sdt_append(s, seq![b]), k)
+{
+    assert((seq![b] + k).skip(1) =~= k);
+}
+
+pub proof fn lemma_sdt_fix_congr(a: Seq<u8>, b: Seq<u8>)
+    requires a.len() == b.len(), a.len() >= 10, forall|i: int| 0 <= i < a.len() && i != 9 ==> a[i] == b[i]
+    ensures sdt_fix(a) == sdt_fix(b)
+{
+    assert(a.update(9, 0u8) =~= b.update(9, 0u8));
+    assert(sdt_fix(a) =~= sdt_fix(b));
+}
+
+/// core invariant: a slice never spans more than isize::MAX bytes
+#[verifier::external_body]
+pub proof fn axiom_slice_u8_len(s: &[u8])
+    ensures s@.len() <= 0x7fff_ffff_ffff_ffff
+{ }
